@@ -13,9 +13,12 @@
 (*   k_<d>   chain-key registration of device d followed by                *)
 (*           ProcessMessageQueueForDevicePK (group_context.go)             *)
 (*   cancel  optional cancellation of the store context                    *)
-(* The secret store is abstracted by keyKnown[d]: a message of d opens iff *)
-(* d's chain key is registered (scenarios keep counters inside the window; *)
-(* the window itself is Ratchet.tla's business).                           *)
+(* The secret store is abstracted by keyKnown[d] and, in scenarios with a  *)
+(* field win > 0, by the ratchet window of Ratchet.tla / C02: a message of *)
+(* d with counter k opens iff d's chain key is registered (at counter 0)   *)
+(* and k <= win + number of d's messages already opened.  A message that   *)
+(* fails with a known key goes back to the device queue (error path) and   *)
+(* is retried by the flush after the next successful open of that device.  *)
 (*                                                                         *)
 (* Impl choices                                                            *)
 (*   ParkUnderLock   FALSE: the loop parks an undecryptable message after  *)
@@ -53,6 +56,11 @@ Arr == Sc.arr
 Regs == Sc.regs
 Nil == "nil"
 KName(d) == "k_" \o d
+\* ratchet window (0 = scenario stays inside the window): opened = delivered + the message being flushed / emitted
+Win == IF "win" \in DOMAIN Sc THEN Sc.win ELSE 0
+NOpen(d) == Cardinality({i \in DOMAIN delivered : DevOf[delivered[i]] = d})
+            + (IF lpc \in {"PF", "FA_lock", "FA_sel"} /\ lcur # Nil /\ DevOf[lcur] = d THEN 1 ELSE 0)
+InWin(m) == Win = 0 \/ CtrOf[m] <= Win + NOpen(DevOf[m])
 
 Init == /\ si \in DOMAIN Scenarios
         /\ mq = <<>> /\ mqmu = "none" /\ sig = 0 /\ cmu = "none"
@@ -118,7 +126,7 @@ G1 == /\ lpc = "G1" /\ cmu = "none"
                       /\ cmu' = IF ParkUnderLock THEN "loop" ELSE "none"
                       /\ lpc' = "PA" /\ UNCHANGED <<delivered, lrest>>
                  ELSE \* processMessage (secret store call, no gate inside)
-                      IF keyKnown[d]
+                      IF keyKnown[d] /\ InWin(lcur)
                         THEN /\ lpc' = "PF" /\ cmu' = "none" /\ UNCHANGED <<delivered, lrest>>   \* decrypted; flush the device queue next
                         ELSE /\ lpc' = "PA" /\ cmu' = "none" /\ UNCHANGED <<delivered, lrest>>   \* failed: park again (error path)
       /\ UNCHANGED <<mq, mqmu, sig, pq, pqmu, ncached, lcur>> /\ LUnch /\ Sched("loop", lpc')
@@ -198,7 +206,7 @@ InQueue == {mq[i] : i \in DOMAIN mq}
 Parked == UNION {pq[d] : d \in Devs}
 Arrived == {Arr[i] : i \in 1..(ai - 1)}
 DeliveredSet == {delivered[i] : i \in DOMAIN delivered}
-Decryptable(m) == keyKnown[DevOf[m]]
+Decryptable(m) == keyKnown[DevOf[m]] /\ InWin(m)
 \* nothing decryptable stays behind once nothing can move any more
 NoStranded == (Quiescent /\ ~done) => \A m \in Parked \cup InQueue : ~Decryptable(m)
 \* every decryptable message that arrived has been delivered, and at most once per arrival
